@@ -356,4 +356,36 @@ theorem LUComputed.exact_identity {m n q : Nat} {A L U : Nat → Nat → F}
   rw [gamma_u_zero, zero_mul] at this
   exact sub_eq_zero.mp (abs_nonpos_iff.mp this)
 
+/-! ### monotonicity in `u`, and the exact solve -/
+
+theorem LUComputed.mono {u u' : F} (h : u ≤ u') {m n q : Nat} {A L U : Nat → Nat → F}
+    (hLU : LUComputed u m n q A L U) : LUComputed u' m n q A L U where
+  L_diag := hLU.L_diag
+  L_upper := hLU.L_upper
+  U_lower := hLU.U_lower
+  U_entry := fun k j hkj hj => (hLU.U_entry k j hkj hj).mono h
+  L_entry := fun i k hki hi hk => by
+    obtain ⟨f, hf, hd⟩ := hLU.L_entry i k hki hi hk
+    exact ⟨f, hf, hd.mono h⟩
+
+theorem LowerSolved.mono {u u' : F} (h : u ≤ u') {n q : Nat} {T : Nat → Nat → F} {b y : Nat → F}
+    (hs : LowerSolved u n q T b y) : LowerSolved u' n q T b y := fun i hi => by
+  obtain ⟨f, hf, hd⟩ := hs i hi
+  exact ⟨f, hf, hd.mono h⟩
+
+theorem UpperSolved.mono {u u' : F} (h : u ≤ u') {n q : Nat} {T : Nat → Nat → F} {y x : Nat → F}
+    (hs : UpperSolved u n q T y x) : UpperSolved u' n q T y x := fun i hi => by
+  obtain ⟨f, hf, hd⟩ := hs i hi
+  exact ⟨f, hf, hd.mono h⟩
+
+/-- with `u = 0` the solve bound collapses to `A x = b` (the exact theorem `gstrsN_solves` of C01) -/
+theorem lu_solve_exact {n qL qU : Nat} {A L U : Nat → Nat → F} {b y x : Nat → F}
+    (hLU : LUComputed (0 : F) n n qL A L U) (hy : LowerSolved (0 : F) n 0 L b y)
+    (hx : UpperSolved (0 : F) n qU U y x) (i : Nat) (hi : i < n) :
+    ∑ j ∈ range n, A i j * x j = b i := by
+  have := lu_solve_backward_error (le_refl (0 : F)) hLU hy hx (K := 3 * n + qL + qU) (by omega)
+    (by simp) i hi
+  rw [gamma_u_zero, zero_mul] at this
+  exact (sub_eq_zero.mp (abs_nonpos_iff.mp this)).symm
+
 end Slu.Rounding
